@@ -1,5 +1,6 @@
 import AFV.Spec.FusedPeak
 import AFV.Lemmas.NestUsage
+import AFV.Lemmas.PeakLeaf3
 /-!
 # C06 — reported memory usage equals the execution-time peak occupancy  (PARTIAL)
 
@@ -9,15 +10,20 @@ Proved here
 * about the reference: a residency is live at every instant of its cover (`live_at_cover`), in particular at each of its uses;
   persistent residencies are live at every instant (`persistent_live_throughout`); the peak dominates the occupancy of every
   instant (`peak_ge_instant`) and is non-negative (`peak_nonneg`); `fits` is the validity predicate;
+* **single Einsum, timeline side** (`peak_single_timeline`, all well-formed nests): the peak of a memory equals the sum of the
+  sizes of its buffers at their allocation points — the loops above an allocation point are the outermost loops of the nest, so
+  the uses of one residency are contiguous in execution order (`proj_convex`: mixed-radix counting), hence at every instant
+  exactly one residency of every buffer is live (`Nest.live_iff`, `Nest.occupancy_eq`).  This is the reason why run_model may
+  simply add up its Reservation nodes;
 * about the single-Einsum model `analytic` (C05): the oversubscription verdict is exactly "some memory's total reserved bits
   exceed its size" (`oversubscription_rejected`), reserved bits and usage do not depend on energies, throughputs or
   n_instances (C19: `scale_energy`, `scale_throughput`, `scale_instances` carry `usageView`).
 
 NOT proved (covered by the correspondence with `evaluate_mapping` only; the full statements are)
-* `peak_single : WF m → analytic's memBits l = peak (leaf m) l` — needs (a) the tracker state machine places every Reservation at
-  the declarative allocation point used by the reference (the existing `tracker_placed` shows well-formed placement, not yet
-  maximal lowering), and (b) that the uses of one residency are contiguous in execution order, so that exactly one residency per
-  holder is live at every instant;
+* the second half of `peak_single : WF m → analytic's memBits l = peak (leaf m) l`: that the tracker state machine of
+  `insert_reservation_nodes` places every Reservation at the declarative allocation point of the reference (`FusedPeak.lower`), i.e.
+  `memBits l = allocSum (descsOf …) l` (the existing `tracker_placed` shows well-formed placement, not yet maximal lowering);
+  with it `peak_single_timeline` would give `peak_single`;
 * `merge_peak : usage computed by merge_next / free_to_loop_index / adjust_reservations = peak tree` — there is no Lean model of the
   reservation algebra; every run compares `evaluate_mapping` with `peak` on generated and mapper-returned fused mappings.
 -/
@@ -79,6 +85,27 @@ size" (run_model's `running_total > size ⇒ InvalidMappingError`). -/
 theorem oversubscription_rejected (arch : Arch Rat) (r : Result Rat) :
     r.oversubscribed arch = true ↔ ∃ x ∈ r.memBits, (arch.levels.getD x.1 Level.dflt).size < x.2 := by
   simp only [Result.oversubscribed, List.any_eq_true, decide_eq_true_eq]
+
+/-- **Single Einsum: peak = sum of the buffer sizes at their allocation points** (for every nest satisfying the decidable side
+conditions `leafOK`: distinct ids, non-empty loops, persistent holders above the loops, non-negative sizes). -/
+theorem peak_single_timeline (w : Workload) (pre : List PNode) (e : Nat) (lvl : Lvl) (h : leafOK w pre e = true) :
+    peak w (.leaf pre e) lvl = Nest.allocSum (descsOf w (.leaf pre e) e) lvl := peak_leaf w pre e lvl h
+
+/-- Contiguity of the uses of a residency (the key step), restated. -/
+theorem uses_contiguous (pre : List PNode) (A : List NodeId) (shape : List Nat) (env : Env) (i j k : Nat)
+    (hA : A <+: loopIds pre) (hnd : (loopIds pre).Nodup) (hij : i ≤ j) (hjk : j ≤ k) (hk : k < count pre shape)
+    (h : proj A (ctxAt pre shape env i) = proj A (ctxAt pre shape env k)) :
+    proj A (ctxAt pre shape env j) = proj A (ctxAt pre shape env i) :=
+  proj_convex pre A shape env i j k hA hnd hij hjk hk h
+
+/-- Non-vacuity of `peak_single_timeline`: the side conditions hold for a nest with lowered and non-lowered buffers, a
+persistent backing store and a two-tensor holder; its peak is 4·8·2 + 4·8 + 4·8 = 128 bits in level 0 and 8 + 16 + 8 = 32 bits in level 1. -/
+example :
+    let w : Workload := { bounds := [2, 2, 2, 2], einsums := [[0, 3, 1], [1, 4, 2]],
+                          tensorRvs := [[0, 1], [0, 2], [0, 3], [1, 2], [2, 3]], bits := [[8, 8, 8, 8, 8], [8, 8, 8, 8, 8]], nInstances := 2 }
+    let pre : List PNode := [.storage 1 0 [0] true, .storage 2 0 [1, 3] false, .loop 3 0 1, .storage 4 1 [0] false, .loop 5 1 1,
+                             .storage 6 1 [3, 1] false, .loop 7 2 1]
+    leafOK w pre 0 = true ∧ peak w (.leaf pre 0) 0 = 128 ∧ peak w (.leaf pre 0) 1 = 32 := by decide +kernel
 
 /-- Non-vacuity: a two-Einsum tree with a shared loop; the reference evaluates. -/
 example :
